@@ -97,7 +97,13 @@ def gen_config(rng, allow=('ne', 'W', 'nodes', 'cuts', 'goback'), cls=None):
     only_edges = True if (cls == 'distance' or 'nodes' not in allow) else rng.random() < 0.6
     if 'cuts' in allow and rng.random() < 0.45:
         allow = tuple(a for a in allow if a != 'cuts')      # about half of the configurations have no cut-off at all
-    cf = {'cls': cls, 'obs_noise': rng.choice([0.5, 1.0, 2.0, 0.5, 1.0, 2.0, 5.0, 25.0, 0.3]), 'obs_noise_ne': rng.choice([None, None, 1.0, 3.0]),
+    noise = rng.choice([0.5, 1.0, 2.0, 0.5, 1.0, 2.0, 5.0, 25.0, 0.3])
+    noise_ne = rng.choice([None, None, 1.0, 3.0])
+    if rng.random() < 0.3:        # "every noise value": any integer up to 59 (some round badly in closed-form-free code)
+        noise = float(rng.randint(1, 59))
+    if rng.random() < 0.3:
+        noise_ne = float(rng.randint(1, 59))
+    cf = {'cls': cls, 'obs_noise': noise, 'obs_noise_ne': noise_ne,
           'max_dist': rng.choice([None, 1.0, 2.0, 0.75, 3.0]) if 'cuts' in allow else None,
           'max_dist_init': rng.choice([None, 1.0, 3.0]) if 'cuts' in allow else None,
           'min_prob_norm': rng.choice([None, None, 0.5, 0.1, 0.01]) if 'cuts' in allow else None,
@@ -336,7 +342,7 @@ def graph_tables(inst, selfnbr=True):
         for n in adj:
             adj[n].append(n)         # InMemMap lists every node as its own neighbour
     return {'nodes': list(inst['nodes']), 'nbrs': [[n, adj[n]] for n in inst['nodes']], 'tab': [],
-            'tr': {'move': 0, 'moveNE': 0, 'back': 0}, 'T': len(inst['path'])}
+            'tr': {'move': 0, 'moveNE': 0, 'back': 0}, 'T': len(inst['path']), 'hasTT': False, 'tt': []}
 
 
 def spec_cf(cf):
@@ -346,7 +352,7 @@ def spec_cf(cf):
     mlp = [-BIG, 1] if cf['min_prob_norm'] is None else [fx(math.log(cf['min_prob_norm'])), 1]
     return {'onlyEdges': cf['only_edges'], 'ne': cf['ne'], 'W': cf['W'], 'maxDist': md, 'maxDistInit': mdi,
             'minlp': mlp, 'neLen': fx(math.log(0.75)), 'neMax': 100, 'secondOrder': bool(cf['avoid_goingback']),
-            'slack': 8, 'tables': False, 'debug': False}
+            'slack': 8, 'tables': False, 'oracle': False, 'debug': False}
 
 
 # ------------------------------------------------------------------ recording for spec/Models.tla
